@@ -322,7 +322,7 @@ def check_aec(run, rule):
         hit = None
         for n in ifs:
             txt = show(n["cond"])
-            if "end()" in txt and "found" in txt:
+            if "end()" in txt and "m_address_event_counts" in txt:
                 hit = n
         ok = False
         why = "expected `if (found != end) found->second++ else map[aec] = 1`"
